@@ -7,11 +7,16 @@ every operation and the final object graph with raw object ids (the harness sort
 
 def kindOfName : String → Option Kind
   | "list" => some .list | "tuple" => some .tuple | "set" => some .set | "fset" => some .fset
-  | "dict" => some .dict | "bytearray" => some (.opq 0) | "deque" => some (.opq 1) | _ => none
+  | "dict" => some .dict | "bytearray" => some (.opq 0) | "deque" => some (.opq 1)
+  -- instances of user subclasses: class SL(list), ST(tuple), SS(set), SF(frozenset), SD(dict), SQ(deque), a namedtuple
+  | "SL" => some (.usr .list) | "ST" => some (.usr .tuple) | "SS" => some (.usr .set) | "SF" => some (.usr .fset)
+  | "SD" => some (.usr .dict) | "SQ" => some (.usr .deque) | "NT" => some (.usr .ntuple) | _ => none
 
 def kindName : Kind → String
   | .list => "list" | .tuple => "tuple" | .set => "set" | .fset => "fset" | .dict => "dict"
   | .inst k => s!"inst:{k}" | .opq 0 => "bytearray" | .opq _ => "deque"
+  | .usr .list => "SL" | .usr .tuple => "ST" | .usr .set => "SS" | .usr .fset => "SF"
+  | .usr .dict => "SD" | .usr .deque => "SQ" | .usr .ntuple => "NT"
 
 def strs (j : Json) : List String := (arr! j).map str!
 
@@ -38,7 +43,7 @@ def sortA (l : List Val) : List Val := l.foldl (fun acc v => insA v acc) []
 /-- children in the canonical order the harness uses -/
 def canonKids : Val → List Val
   | .node _ k ks xs =>
-      match k with
+      match k.base with
       | .dict => (sortKV (ks.zip xs)).map (·.2)
       | .inst _ => match ks.zip xs with
         | p :: r => p.2 :: (sortKV r).map (·.2)
@@ -124,6 +129,10 @@ partial def tyOf (j : Json) : Ty :=
 def optsOf (j : Json) : Option Opts :=
   if isNull j then none else some { strict := bool! (fld j "no_explicit_cast") }
 
+partial def hasNT : Val → Bool
+  | .node _ k _ xs => k == .usr .ntuple || xs.any hasNT
+  | _ => false
+
 def boundOf (j : Json) : Option (Nat × Bool) :=
   if isNull j then none else
   match obj? j "lax" with
@@ -152,6 +161,11 @@ def buildDecl (env : Env) (dj : Json) (b0 : B) : Decl × List Val × B :=
           | none => (.none, { fa.2 with bad := some "fresh factory with sharing" })
         | "shared" => let (v, b') := buildVal [] (fld dj' "val") fa.2; (.shared v, b')
         | _ => let (v, b') := buildVal [] (fld dj' "val") fa.2; (.val v, b')
+      -- `type(data)([...])` on a namedtuple raises TypeError out of get_default: outside the modelled fragment
+      let freshNT : Bool := match dflt with
+        | .fresh _ => ((fld dj' "val").compress.splitOn "\"NT\"").length > 1
+        | _ => false
+      let b' := if dflt.vals.any hasNT || freshNT then { b' with bad := some "namedtuple default" } else b'
       (fa.1 ++ [{ name := str! (fld fj "name"), ty := fieldTy fj, dflt := dflt,
                   noOutput := bool! (fld fj "no_output"),
                   ci := bool! (fld dj "ci") }], b')) ([], b0)      -- ParserField.setup(options of the declaring class)
@@ -197,6 +211,7 @@ def atomOf (j : Json) : Val := match j with
 
 structure Run where
   w : World
+  fpool : List Val := []    -- `force_default` objects of the running-options pool (each built once)
   inh : List Nat := []      -- per declaration: how many of its fields are taken over from a base class
   outs : List Outcome := []
   unm : Option String := none
@@ -229,10 +244,12 @@ def stepJ (legacy : Bool) (envJ : Json) (r : Run) (j : Json) : Run :=
       | none =>
         let rj := fld j "ropt"
         let ro : ROpts := if isNull rj then {} else
-          let force := obj? rj "force_default"
+          let force : Option Val := match obj? rj "force_ref" with
+            | some k => r.fpool[nat! k]?
+            | none => (obj? rj "force_default").map atomOf
           { ignoreRequired := bool! (fld rj "ignore_required") || force.isSome,
             noDefault := bool! (fld rj "no_default"),
-            force := force.map atomOf,
+            force := force,
             dfs := match obj? rj "data_first_search" with
               | some d => if isNull d then none else some (bool! d)
               | none => none }
@@ -244,7 +261,7 @@ def stepJ (legacy : Bool) (envJ : Json) (r : Run) (j : Json) : Run :=
         match walkPath rv ((arr! (fld j "path")).map nat!) false with
         | some (.node i k _ _, false) =>
             let v := atomOf (fld j "val")
-            let act : Option Act := match str! (fld j "act"), k with
+            let act : Option Act := match str! (fld j "act"), k.base with
               | "append", .list => some (.append v)
               | "add", .set => some (.add v)
               | "setkey", .dict => some (.setkey ((obj? j "key").map str! |>.getD "zz") v)
@@ -274,14 +291,18 @@ def stepJ (legacy : Bool) (envJ : Json) (r : Run) (j : Json) : Run :=
   | _ => { r with unm := some "unknown op" }
 
 def handle (j : Json) : Json :=
-  let (env, inh0, b) := buildEnv (fld j "env")
-  match b.bad with
+  let (env, inh0, b0) := buildEnv (fld j "env")
+  let (fpool, b) := (arr! (fld j "fpool")).foldl (fun (acc : List Val × B) x =>
+    let (v, b') := buildVal [] x acc.2; (acc.1 ++ [v], b')) ([], b0)
+  match (if fpool.any hasNT then some "namedtuple default" else b.bad) with
   | some why => Json.mkObj [("unmodelled", Json.str why)]
   | none =>
+    let n0 := env.length
     let w0 : World := { env := env, next := b.next }
-    let r := (arr! (fld j "ops")).foldl (stepJ (bool! (fld j "legacy_copy")) (fld j "env")) { w := w0, inh := inh0.map (fun | .int i => i.toNat | _ => 0) }
+    let r := (arr! (fld j "ops")).foldl (stepJ (bool! (fld j "legacy_copy")) (fld j "env")) { w := w0, fpool := fpool, inh := inh0.map (fun | .int i => i.toNat | _ => 0) }
     -- the declared default objects, once each (a subclass shares the default objects of the fields it takes over)
-    let dfl := (r.w.env.zip r.inh).flatMap (fun p => (p.1.fields.drop p.2).flatMap (fun f => f.dflt.vals))
+    let own := (r.w.env.zip r.inh).map (fun p => (p.1.fields.drop p.2).flatMap (fun f => f.dflt.vals))
+    let dfl := (own.take n0).flatten ++ fpool ++ (own.drop n0).flatten
     Json.mkObj [("outs", Json.arr (r.outs.map outJ).toArray),
                 ("defaults", Json.arr (dfl.map valJ).toArray),
                 ("roots", Json.arr (r.w.roots.map (fun | some v => valJ v | none => Json.null)).toArray),
